@@ -650,6 +650,7 @@ impl Report {
         let mut rules = vec![];
         let mut subs_json = vec![];
         let mut violations = 0;
+        let mut harness_faults = 0u64;
         let mut known_lines: BTreeMap<String, (u64, String)> = BTreeMap::new();
         let mut exhaustive_all = !self.subs.is_empty();
         let mut any_exhaustive = false;
@@ -682,7 +683,11 @@ impl Report {
                 let e = known_lines.entry(k.clone()).or_insert((0, m.clone()));
                 e.0 += n;
             }
-            if let Some(v) = &s.violation {
+            if let Some(v) = s.violation.as_ref().filter(|v| v.key.starts_with("harness/")) {
+                // a fault of the machinery itself (generator gave up, ...) is never a violation of the property
+                eprintln!("INCONCLUSIVE property={} sub={} :: {} {}", self.id, s.name, v.key, truncate(&v.msg, 300));
+                harness_faults += 1;
+            } else if let Some(v) = &s.violation {
                 violations += 1;
                 let path = Path::new(VERIF_DIR).join("replays").join(format!(
                     "{}-{}-seed{}.json",
@@ -759,6 +764,8 @@ impl Report {
         );
         if violations > 0 {
             1
+        } else if harness_faults > 0 {
+            2
         } else {
             0
         }
